@@ -13,6 +13,30 @@ NOTE = ('Trusted base: rustc nightly MIR/HIR of the type-checked program at -Zmi
         'check, not a proof of the behavioural property; see coverage.not_decided in the evidence.')
 
 CLAIMS = {
+    'C13': dict(
+        technique='leaf-set dataflow on PublicInput::get_hash under both Stone configurations (must-depend-on per field), '
+                  'loop-carried accumulator rule, HIR table agreement of the two DynamicParams conversions with the struct '
+                  'field order (340 positions)',
+        text='Decides that the digest depends on every listed field, on both lengths, on the chain accumulator, on the friendly-'
+             'layer count exactly under stone6, and that every dynamic parameter is flattened at its own position. Collision '
+             'resistance and agreement with the prover are not decided.',
+        ref='4 C13'),
+    'C14': dict(
+        technique='per-layout guard tables generated from the layout\'s own segment/ratio declarations and compared both ways with '
+                  'guards extracted from validate_public_input (exhaustiveness of builtin handlers); field-flow of main-page '
+                  'addresses to rejecting comparisons in verify_public_input',
+        text='Decides presence/operands/constants of every validation conjunct per layout incl. one usage guard per declared '
+             'builtin segment, absence of other rejection conditions, the layout-code literal, and whether program/output cells '
+             'are address-checked (today: genuine defect in all 7 layouts, listed in known_findings.json).',
+        ref='4 C14'),
+    'C17': dict(
+        technique='inventory of loops / iterator pipelines / allocations / recursion over Reach(verify) per layout; bounding '
+                  'leaves substituted into verify\'s namespace and classified by static type; numeric proof fields must have a '
+                  'dominating upper-bound guard',
+        text='Decides that no loop, pipeline or allocation reachable from verify is bounded by a numeric proof field lacking a '
+             'validated upper bound that precedes it, that the only recursion is the tabled Merkle walk, and that generated '
+             'evaluators are loop-free. Actual time/memory and external-crate costs are not decided.',
+        ref='4 C17'),
     'C08': dict(
         technique='transcript event automaton: NFA abstraction of the accepting paths of verify::<Layout> (callees inlined) '
                   'compared for language EQUALITY with the protocol regex; leaf-set dataflow on the sponge methods; '
